@@ -21,7 +21,7 @@ From Coq Require Import List String Bool ZArith QArith.
 Import ListNotations.
 From NV Require Import Crash.Outcome Crash.NumOps Crash.NumOpsProofs Crash.Index Crash.IndexProofs
   Crash.Lexer Crash.LexerProofs Crash.Span Crash.SpanProofs Crash.NameReg Crash.NameRegProofs
-  Crash.Defects Crash.MergeDispatch Crash.MergeDispatchProofs Gen.PanicSites.
+  Crash.Defects Crash.MergeDispatch Crash.MergeDispatchProofs Crash.TomlFloats Crash.TomlFloatsProofs Gen.PanicSites.
 Open Scope string_scope.
 
 Inductive coverage : Type :=
@@ -118,6 +118,12 @@ Definition ledger : list (string * coverage) := [
    ByTheorem "no_panic_pretty_print_cap_fixed" _ no_panic_pretty_print_cap_fixed "char_indices().nth(max_width) is matched, not unwrapped, since 03ad279 (pretty_print_cap_panics: before that commit it panicked when bytes > max_width >= characters)");
   ("core/src/pretty.rs::PrettyPrintCap::pretty_print_cap:index#1",
    Unproved "output[..end] with end taken from char_indices(): a char boundary by construction; not modelled");
+  ("core/src/serialize/mod.rs::number_from_float:expect#1",
+   ByTheorem "no_panic_toml_import" _ no_panic_toml_import "try_from_float_simplest(f).expect(..) fails on inf / nan only: check_floats, run before any conversion, visits every float the conversion visits (tables, arrays of tables, arrays, inline tables at any depth) and turns a non-finite one into a parse error");
+  ("core/src/serialize/mod.rs::range_pos:cast#1",
+   ByTheorem "mk_span_id" _ mk_span_id "usize as u32: identity for offsets of sources shorter than 4 GiB");
+  ("core/src/serialize/mod.rs::range_pos:cast#2",
+   ByTheorem "mk_span_id" _ mk_span_id "usize as u32: identity for offsets of sources shorter than 4 GiB");
   ("core/src/term/string.rs::NickelString::substring:sub#1",
    ByTheorem "no_panic_substring" _ no_panic_substring "end_usize - start_usize is dominated by the test end_usize < start_usize");
   ("core/src/term/string.rs::NickelString::find_all_regex:unwrap#1",
